@@ -68,6 +68,13 @@ def check_margins(steps, shape):
     stubs.install()
     img = np.zeros(shape, dtype=np.float32)
     l, r = drive.make_inputs(img, img, (-2, 2))
+    if any("geometric_prior" in c for _, c in steps):
+        # the optional rasters an optimisation's geometric prior may point at (both images carry them: with a
+        # validation step the right image is the reference of the second round)
+        for ds in (l, r):
+            ds.coords["band_classif"] = ["veg", "water"]
+            ds["classif"] = (["band_classif", "row", "col"], np.zeros((2,) + tuple(shape), dtype=np.int16))
+            ds["segm"] = (["row", "col"], np.zeros(tuple(shape), dtype=np.int16))
     machine = PandoraMachine()
     # a matching-cost step other than 1 is only accepted when the pandora2d package is loaded: stand in for it
     import sys
@@ -202,6 +209,13 @@ def gen_cases(draw):
         extra[1] = copy.deepcopy(dict(pool_cv)[dfa.kind_of(extra[0])])
     if any(dfa.kind_of(n) == "optimization" for n, _ in steps + [extra]):
         steps[0][1].pop("step", None)  # the optimisation step only works with step 1 (documented refusal)
+    for n, c in steps + [extra]:
+        if dfa.kind_of(n) == "optimization":
+            # whatever geometric prior the optimisation is given, its margin is the documented cumulative 40
+            prior = draw(st.sampled_from([None, None, {"source": "internal"}, {"source": "classif", "classes": ["veg"]},
+                                          {"source": "classif", "classes": ["water", "veg"]}, {"source": "segm"}]))
+            if prior is not None:
+                c["geometric_prior"] = copy.deepcopy(prior)
     return {"shape": shape, "steps": steps, "extra": extra, "pos": draw(st.integers(0, 20))}
 
 
@@ -228,7 +242,9 @@ def gen_body(ctx: Ctx, p: dict) -> None:
         if g3["global margins"][s] < got["global margins"][s]:
             ctx.violation("C20/margins-decrease-when-step-added", f"{got['global margins']} -> {g3['global margins']} adding {p['extra']}")
     ctx.case(p, nontrivial=mixed, classes=(["non-cumulative-dominates"] if dom else []) +
-             (["validation"] if len(noval) != len(steps) else []) + (["matching-cost-step>1"] if steps[0][1].get("step", 1) > 1 else []))
+             (["validation"] if len(noval) != len(steps) else []) + (["matching-cost-step>1"] if steps[0][1].get("step", 1) > 1 else []) +
+             (["optimisation-with-classif-or-segm-prior"] if any(c.get("geometric_prior", {}).get("source") in ("classif", "segm")
+                                                                for _, c in steps) else []))
 
 
 @st.composite
